@@ -1572,6 +1572,11 @@ static uint64_t ext_bits(RM *rm, const VD *v) {
   return b;
 }
 /* kinds that live in an extension slot, with the values the API stores there (narrower ones take the 32-bit kinds) */
+#ifdef EXT_KIND
+#define PICK_EXT_KIND() ((unsigned)EXT_KIND) /* one kind per obligation: the visitor dispatch over a symbolic kind is a much larger formula */
+#else
+#define PICK_EXT_KIND() ((unsigned)in_u8())
+#endif
 static void assume_ext_value(unsigned kind, uint64_t bits) {
   __CPROVER_assume(kind == VT_UINT64 || kind == VT_INT64 || kind == VT_DOUBLE);
   __CPROVER_assume(kind_exists(kind));
@@ -1592,7 +1597,7 @@ void h_e2e_set_twice(void) {
   Doc *d = &s_d, *e = &s_e;
   JsonDocument__ctor__Allocator_p(d, ad);
   JsonDocument__ctor__Allocator_p(e, ae);
-  unsigned kind = in_u8();
+  const unsigned kind = PICK_EXT_KIND();
   uint64_t bits = in_u64();
   assume_ext_value(kind, bits);
   g_alloc_may_fail = 0; /* the SOURCE is built without faults */
@@ -1608,10 +1613,10 @@ void h_e2e_set_twice(void) {
   _Bool r2 = api__e2e_set_variant(dst, src);
   unsigned f2 = g_alloc_failures;
   _Bool stored2 = d->data_.type_ == kind && ext_bits(&d->resources_, &d->data_) == bits;
-  COVER(f1 > f0 && f2 > f1); COVER(f1 > f0 && f2 == f1 && stored2); COVER(f1 == f0 && r1 && r2); COVER(kind == VT_DOUBLE && r1);
+  COVER(f1 > f0 && f2 > f1); COVER(f1 > f0 && f2 == f1 && stored2); COVER(f1 == f0 && r1 && r2);
   CHECK(f1 == f0 || !r1, "C05: the first set() reports the allocation failure it met (false)");
 #ifdef CANARY_E2E_SET
-  CHECK((f2 == f1 || !r2) && !(f2 > f1 && kind == VT_INT64), "C05: the second set() reports the allocation failure IT met (false), although the document had already reported one");
+  CHECK((f2 == f1 || !r2) && !(f2 > f1 && (bits & 1)), "C05: the second set() reports the allocation failure IT met (false), although the document had already reported one");
 #else
   CHECK(f2 == f1 || !r2, "C05: the second set() reports the allocation failure IT met (false), although the document had already reported one");
 #endif
@@ -1680,7 +1685,7 @@ void h_e2e_copy_ext(void) {
   ResourceManager__ctor__Allocator_p(rm, a);
   struct Slot_VariantData s1 = ResourceManager__allocVariant(rm), s2 = ResourceManager__allocVariant(rm);
   VD *v1 = s1.ptr_, *v2 = s2.ptr_; /* two distinct slots of the document: destination and source */
-  unsigned kind = in_u8();
+  const unsigned kind = PICK_EXT_KIND();
   uint64_t bits = in_u64();
   assume_ext_value(kind, bits);
   put_ext(v2, rm, kind, bits);
@@ -1688,7 +1693,7 @@ void h_e2e_copy_ext(void) {
   struct JsonVariant dst; dst.data_ = v1; dst.resources_ = rm;
   struct JsonVariantConst src; src.data_ = v2; src.resources_ = rm;
   _Bool r = copyVariant(dst, src);
-  COVER(kind == VT_UINT64); COVER(kind == VT_INT64); COVER(kind == VT_DOUBLE);
+  COVER(r); COVER((bits >> 40) == 0x123456);
   CHECK(r && v1->type_ == kind && ext_bits(rm, v1) == bits, "C04: the copy holds the same 64-bit value, same kind");
 #ifdef CANARY_E2E_COPY
   CHECK(v1->content_.asSlotId != src_slot && v1->content_.asSlotId != (slotid_t)(src_slot + 1), "C04/C06: the copy lives in its OWN extension slot (two values never share one)");
@@ -1721,7 +1726,7 @@ void h_e2e_add_failure(void) {
   Doc *d = &s_d, *e = &s_e;
   JsonDocument__ctor__Allocator_p(d, ad);
   JsonDocument__ctor__Allocator_p(e, ae);
-  unsigned kind = in_u8();
+  const unsigned kind = PICK_EXT_KIND();
   uint64_t bits = in_u64();
   assume_ext_value(kind, bits);
   g_alloc_may_fail = 0;
